@@ -830,7 +830,7 @@ def _edit_verdict(buf, cur, rest, idx="i"):
     return "UNRECOGNISED"
 
 
-@rule("R02.4", ["C02"], "T-BND", floor=12)
+@rule("R02.4", ["C02", "C11"], "T-BND", floor=12)
 def r02_4(ctx):
     """Memory bound: MAX_BUFFER_SIZE is a positive constant; for flag-free garbage of any length arriving on a
     buffer of any admissible length the buffer afterwards holds exactly the last min(total, MAX) bytes (evaluated
@@ -982,7 +982,7 @@ def _frame_fields(o):
     return out
 
 
-@rule("R02.5", ["C02", "C04", "C01"], "T-FUN", floor=60)
+@rule("R02.5", ["C02", "C04", "C01", "C11", "C09"], "T-FUN", floor=60)
 def r02_5(ctx):
     """Streams and chunkings against a reference receiver written from the specification: curated byte streams covering
     every reserved-byte situation (back-to-back frames, CANCEL before a frame, SUBSTITUTE inside a frame, bad CRC, invalid
